@@ -261,7 +261,12 @@ mutual
                 | some crt =>
                   let r := listItem m fuel crt nextI level rest1
                   match r.err with
-                  | some e => ⟨list, some e, r.rest⟩
+                  | some e =>
+                    -- `return list, err`: what the recursion wrote in place into an existing inner
+                    -- list stays visible (same backing array)
+                    match list.get? i.toNat with
+                    | some (.list _) => ⟨list.setAt i.toNat (.list r.list), some e, r.rest⟩
+                    | _ => ⟨list, some e, r.rest⟩
                   | none =>
                     match setIndex list i (.list r.list) with
                     | .ok l => ⟨l, none, r.rest⟩
@@ -273,7 +278,12 @@ mutual
                 | some _ => (list.setAt i.toNat (.tbl .nil), Tbl.nil)   -- "indices out of order"
               let r := key m fuel inner level rest
               match r.err with
-              | some e => ⟨list1, some e, r.rest⟩
+              | some e =>
+                -- `return list, e`: when the element exists, `inner` is the map stored in the list
+                -- (found there, or just put there): what `key` set before failing stays visible
+                match list.get? i.toNat with
+                | some _ => ⟨list1.setAt i.toNat (.tbl r.data), some e, r.rest⟩
+                | none => ⟨list1, some e, r.rest⟩
               | none =>
                 match setIndex list1 i (.tbl r.data) with
                 | .ok l => ⟨l, none, r.rest⟩
